@@ -153,13 +153,14 @@ def run_batt(s, battery, cutoff, pfunc, dfunc, cid, fail_at=None, ref=True, max_
         e["raised"] = False
         return r
 
+    returned = None
     if orig_solve is not None:       # (observation of the internal solver calls is optional: the clauses are about the callbacks)
         System._solve = tapped
     try:
         with warnings.catch_warnings():
             warnings.simplefilter("ignore")
             df = s.batt_life(battery, cutoff=cutoff, pfunc=P, dfunc=D)
-        case["log"] = [[cell(x) for x in row] for row in df[["Time (s)", "Capacity (Ah)", "Voltage (V)", "Resistance (Ohm)"]].itertuples(index=False, name=None)]
+        returned = df
     except BaseException as e:
         if isinstance(e, (KeyboardInterrupt, SystemExit)):
             raise
@@ -168,6 +169,17 @@ def run_batt(s, battery, cutoff, pfunc, dfunc, cid, fail_at=None, ref=True, max_
         if orig_solve is not None:
             System._solve = orig_solve
     case["tail"] = list(pending)
+    if case["outcome"] == "ok":
+        # (reading the returned log is the harness' business: an error here is a machinery failure, not "batt_life raised")
+        cols = {}
+        for want in ("Time", "Capacity", "Voltage", "Resistance"):
+            hit = [c for c in returned.columns if str(c).startswith(want)]
+            if len(hit) != 1:
+                from drv_solve import HarnessError
+                raise HarnessError("batt_life log: no unique column for %r in %r" % (want, list(returned.columns)))
+            cols[want] = hit[0]
+        case["log"] = [[cell(x) for x in row] for row in
+                       returned[[cols["Time"], cols["Capacity"], cols["Voltage"], cols["Resistance"]]].itertuples(index=False, name=None)]
     if is_source:
         case["src1"] = [cell(s._g[idx]._params["vo"]), cell(s._g[idx]._params["rs"])]
     return case
